@@ -172,8 +172,13 @@ func (sc *simServerConn) respond(s *simnet.Server) {
 		case r.body == "EXCCUT":
 			// half of an exception packet, then the transport dies
 			e := &ref.Enc{NoMap: true}
-			ref.EncodeExceptionChain(e, []ref.Exception{{Code: 241, Name: "DB::Exception", Message: "Memory limit exceeded"}})
-			sc.conn.Deliver(e.B[:len(e.B)/2], nil)
+			ref.EncodeExceptionChain(e, []ref.Exception{{Code: 241, Name: "DB::Exception", Message: "Memory limit exceeded"}, {Code: 1, Name: "DB::Exception", Message: "nested cause"}})
+			// ... inside the first element or inside the nested one (decided by the history so far)
+			cut := len(e.B) / 4
+			if len(sc.conn.WrittenBytes())%2 == 1 {
+				cut = len(e.B) * 3 / 4
+			}
+			sc.conn.Deliver(e.B[:cut], nil)
 			sc.conn.FailReads(errors.New("connection reset by peer"))
 		case r.body == "HANG":
 			sc.mu.Lock()
